@@ -1,4 +1,5 @@
 import RaftVerif.Core.Fsm
 import RaftVerif.Proofs.ServerLocal
+import RaftVerif.Proofs.AECommit
 /-! # C02 — state-machine safety.  Registered: `RP.state_machine_safety`, `RP.state_machine_safety_snap`,
 `RP.fsm_safety` (streams handed to the FSMs, all lifetimes). -/
